@@ -26,6 +26,7 @@ def predFn : String → Option (Val → Bool)
   | "p1" => some fun v => iv v % 2 == 0
   | "p2" => some fun v => iv v > 1
   | "p3" => some fun v => iv v < 3
+  | "p9" => some fun v => iv v == 9
   | "pp" => some fun v => match v with | .pair (.n i) _ => i % 2 == 0 | _ => false
   | _ => none
 
@@ -82,10 +83,19 @@ def parseCons (tok : String) : Option Cons :=
   | ["rposition", p] => (predFn p).map .rposition
   | _ => none
 
+/-- `[a;b;c]`; an element `v*n` stands for `n` copies of `v` (long inputs) -/
 def parseInput (s : String) : Option (List Val) :=
   if s = "[]" then some [] else
-  if s.startsWith "[" && s.endsWith "]" then
-    (((s.drop 1).dropEnd 1).toString.splitOn ";").mapM fun t => (parseInt t).map Val.n
+  if s.startsWith "[" && s.endsWith "]" then do
+    let parts ← (((s.drop 1).dropEnd 1).toString.splitOn ";").mapM fun t =>
+      match t.splitOn "*" with
+      | [v] => (parseInt v).map fun i => [Val.n i]
+      | [v, k] => do
+        let i ← parseInt v
+        let k ← k.toNat?
+        some (List.replicate k (Val.n i))
+      | _ => none
+    some parts.flatten
   else none
 
 partial def showVal : Val → String
